@@ -618,11 +618,85 @@ struct Env {
     helper_pid: u32,
 }
 
+// ------------------------------------------------------------------------------------------
+// exec helpers: scenario field `exec_helpers: {name: [argv...]}` spawns `sh -c 'read x; exec "$@"' sh argv...`
+// (a process whose image is the shell until told otherwise); audit `pid: name` uses its pid; op
+// {"op": "helper_exec", "name"} makes it exec argv (same pid, new image) and waits until /proc/<pid>/exe
+// has changed.  Result `helpers: {name: {pid, exe_before, exe_after}}`.
+// ------------------------------------------------------------------------------------------
+struct ExecHelper {
+    child: std::process::Child,
+    exe_before: String,
+    exe_after: Option<String>,
+}
+static HELPERS: Mutex<Vec<(String, ExecHelper)>> = Mutex::new(Vec::new());
+
+fn proc_exe(pid: u32) -> String {
+    std::fs::read_link(format!("/proc/{}/exe", pid)).map(|p| p.to_string_lossy().to_string()).unwrap_or_default()
+}
+
+fn kill_helpers() {
+    for (_, mut h) in HELPERS.lock().unwrap().drain(..) {
+        let _ = h.child.kill();
+        let _ = h.child.wait();
+    }
+}
+
+async fn spawn_exec_helper(name: &str, argv: &Value) -> Result<(), String> {
+    let args: Vec<String> = argv.as_array().map(|a| a.iter().filter_map(|x| x.as_str().map(|s| s.to_string())).collect()).unwrap_or_default();
+    if args.is_empty() {
+        return Err(format!("exec_helpers.{}: argv missing", name));
+    }
+    let child = std::process::Command::new("sh")
+        .arg("-c").arg("read x; exec \"$@\"").arg("sh").args(&args)
+        .stdin(std::process::Stdio::piped()).stdout(std::process::Stdio::null()).stderr(std::process::Stdio::null())
+        .spawn().map_err(|e| format!("exec_helpers.{}: {}", name, e))?;
+    let pid = child.id();
+    let mut exe = String::new();
+    for _ in 0..2000 {
+        exe = proc_exe(pid);
+        // right after fork the image is still the driver's; wait for the shell
+        if !exe.is_empty() && exe != proc_exe(std::process::id()) {
+            break;
+        }
+        tokio::time::sleep(Duration::from_millis(1)).await;
+    }
+    HELPERS.lock().unwrap().push((name.to_string(), ExecHelper { child, exe_before: exe, exe_after: None }));
+    Ok(())
+}
+
+async fn helper_exec(name: &str) -> Result<(), String> {
+    let (pid, before) = {
+        let mut hs = HELPERS.lock().unwrap();
+        let h = hs.iter_mut().find(|(n, _)| n == name).ok_or(format!("helper_exec: no exec helper {:?}", name))?;
+        let mut stdin = h.1.child.stdin.take().ok_or("helper_exec: already told to exec")?;
+        stdin.write_all(b"go\n").map_err(|e| e.to_string())?;
+        drop(stdin);
+        (h.1.child.id(), h.1.exe_before.clone())
+    };
+    for _ in 0..5000 {
+        let now = proc_exe(pid);
+        if !now.is_empty() && now != before {
+            let mut hs = HELPERS.lock().unwrap();
+            if let Some(h) = hs.iter_mut().find(|(n, _)| n == name) {
+                h.1.exe_after = Some(now);
+            }
+            return Ok(());
+        }
+        tokio::time::sleep(Duration::from_millis(1)).await;
+    }
+    Err(format!("helper_exec: the image of {} did not change", name))
+}
+
 fn audit_record(a: &Value, env: &Env) -> Result<hooks::Record, String> {
     let uid = a.get("uid").and_then(|x| x.as_u64()).unwrap_or(0);
     let pid = match a.get("pid") {
         Some(Value::String(s)) if s == "self" => std::process::id(),
         Some(Value::String(s)) if s == "helper" => env.helper_pid,
+        Some(Value::String(s)) => match HELPERS.lock().unwrap().iter().find(|(n, _)| n == s) {
+            Some((_, h)) => h.child.id(),
+            None => return Err(format!("audit.pid: no exec helper named {:?}", s)),
+        },
         Some(Value::Number(n)) => n.as_u64().unwrap_or(0) as u32,
         None | Some(Value::Null) => std::process::id(),
         Some(other) => return Err(format!("audit.pid: unsupported value {}", other)),
@@ -889,6 +963,7 @@ async fn run_ops(ops: Option<&Value>, shared: &SharedState, env: &Env, snaps: &M
                 let port = op.get("port").and_then(|x| x.as_u64()).ok_or("remove_audit.port")? as u16;
                 hooks::AUDIT.lock().unwrap().remove(&port);
             }
+            "helper_exec" => helper_exec(op.get("name").and_then(|x| x.as_str()).unwrap_or("")).await?,
             "kill_actor" => kill_actor(shared, op.get("actor").and_then(|x| x.as_str()).unwrap_or("")).await?,
             "clear_summary" => shared.get_agent_status_shared_state().clear_all_summary().await.map_err(|e| e.to_string())?,
             "barrier" => {
@@ -1098,13 +1173,13 @@ async fn exchange_streaming(stream: &mut TcpStream, buf: &mut Vec<u8>, raw: &[u8
     resp
 }
 
-async fn connect_from(local_port: u16, proxy_port: u16) -> Result<(TcpSocket, u16), String> {
+async fn connect_from(local_ip: Ipv4Addr, local_port: u16, proxy_port: u16) -> Result<(TcpSocket, u16), String> {
     // bind first so that the source port is known before the connection exists
     let mut last = String::new();
     for _ in 0..50 {
         let sock = TcpSocket::new_v4().map_err(|e| e.to_string())?;
         let _ = sock.set_reuseaddr(true);
-        match sock.bind(SocketAddr::from((Ipv4Addr::LOCALHOST, local_port))) {
+        match sock.bind(SocketAddr::from((local_ip, local_port))) {
             Ok(()) => {
                 let p = sock.local_addr().map_err(|e| e.to_string())?.port();
                 if p == proxy_port {
@@ -1118,7 +1193,7 @@ async fn connect_from(local_port: u16, proxy_port: u16) -> Result<(TcpSocket, u1
             }
         }
     }
-    Err(format!("cannot bind 127.0.0.1:{}: {}", local_port, last))
+    Err(format!("cannot bind {}:{}: {}", local_ip, local_port, last))
 }
 
 async fn run_connection(
@@ -1135,7 +1210,18 @@ async fn run_connection(
                          "responses": [], "trailing_b64": "", "eof": false, "error": Value::Null});
     let local_port = c.get("local_port").and_then(|x| x.as_u64()).unwrap_or(0) as u16;
     let timeout = Duration::from_millis(c.get("timeout_ms").and_then(|x| x.as_u64()).unwrap_or(default_timeout));
-    let (sock, port) = match connect_from(local_port, proxy_port).await {
+    // optional source address (any 127.x.y.z is local): the stand-in audit map, like the kernel's, is keyed by port only
+    let local_ip: Ipv4Addr = match c.get("local_ip").and_then(|x| x.as_str()) {
+        Some(t) => match t.parse() {
+            Ok(ip) => ip,
+            Err(e) => {
+                out["connect_error"] = json!(format!("local_ip: {}", e));
+                return out;
+            }
+        },
+        None => Ipv4Addr::LOCALHOST,
+    };
+    let (sock, port) = match connect_from(local_ip, local_port, proxy_port).await {
         Ok(x) => x,
         Err(e) => {
             out["connect_error"] = json!(e);
@@ -1334,6 +1420,14 @@ async fn run_scenario(sc: Value, env: Arc<Env>) -> Value {
         }
     }
     let shared = shared;
+    kill_helpers();
+    if let Some(m) = sc.get("exec_helpers").and_then(|x| x.as_object()) {
+        for (name, argv) in m {
+            if let Err(e) = spawn_exec_helper(name, argv).await {
+                error = Some(e);
+            }
+        }
+    }
 
     // ---- policy and key in force
     if let Some(rules) = sc.get("rules").and_then(|x| x.as_object()) {
@@ -1490,10 +1584,12 @@ async fn run_scenario(sc: Value, env: Arc<Env>) -> Value {
         "drained": drained,
         "stray_upstream": stray,
         "panics": PANICS.lock().unwrap().clone(),
+        "helpers": HELPERS.lock().unwrap().iter().map(|(n, h)| (n.clone(), json!({"pid": h.child.id(), "exe_before": h.exe_before, "exe_after": h.exe_after}))).collect::<serde_json::Map<String, Value>>(),
         "self_pid": std::process::id(),
         "helper_pid": env.helper_pid,
     });
     hooks::FAIL_REMOVE.store(false, Ordering::SeqCst);
+    kill_helpers();
     for (_, rt) in KILLABLE.lock().unwrap().drain(..) {
         rt.shutdown_background();
     }
@@ -1615,6 +1711,7 @@ fn main() {
             let _ = out.flush();
         }
     });
+    kill_helpers();
     let _ = helper.kill();
     let _ = helper.wait();
     let _ = out.flush();
